@@ -262,7 +262,16 @@ Inductive call :=
 | CClearing (cur fin : rev) (payment : N)
 | CRevise (cur : rev) (num : N) (vs ms : list N)
 | CClearingRev (cur : rev) (vs : list N)
-| CInitial (fc : rev) (other uc : N).
+| CInitial (fc : rev) (other uc : N)
+  (* rhp/v2/rpc.go rpcSectorRoots up to the point where the revision is handed to the contract
+     manager: the locked contract must be revisable, the candidate is Revise(current, renter's
+     number and values) and must pass ValidateRevision(cost, no collateral); [cost] is core's
+     RPCSectorRootsCost total, computed by the harness *)
+| HSectorRoots (cur : rev) (num : N) (vs ms : list N) (cost : N)
+  (* rhp/v3/payments.go processContractPayment up to the point where the account is credited:
+     the candidate is Revise(current, renter's number and values), the amount is what the
+     renter's valid payout loses, and the candidate must pass ValidatePaymentRevision(amount) *)
+| HPayByContract (cur : rev) (num : N) (vs ms : list N).
 
 Inductive outv := OUnit | OCur (a : N) | OCur2 (a b : N) | ORev (r : rev).
 
@@ -276,6 +285,18 @@ Definition run (c : call) : res outv :=
   | CRevise cur n vs ms => do r <- revise cur n vs ms; Ok (ORev r)
   | CClearingRev cur vs => do r <- clearing_revision cur vs; Ok (ORev r)
   | CInitial fc o u => Ok (ORev (initial_revision fc o u))
+  | HSectorRoots cur n vs ms cost =>
+      if rnum cur =? max64 then bad else
+      do r <- revise cur n vs ms;
+      do x <- validate_revision cur r cost 0;
+      Ok (OCur2 (fst x) (snd x))
+  | HPayByContract cur n vs ms =>
+      do r <- revise cur n vs ms;
+      do cvr <- valid_renter cur; do rvr <- valid_renter r;
+      let '(amount, uf) := csub_u cvr rvr in
+      if uf then bad else
+      do _ <- validate_payment cur r amount;
+      Ok (OCur amount)
   end.
 
 Definition output_eqb (a b : output) : bool := (oaddr a =? oaddr b) && (oval a =? oval b).
